@@ -11,7 +11,9 @@ CREDS = [(b"user", b"pass"), (b"", b""), (b"u\x00ser", b"p\x00w"), (b"us\r\ner",
          (b"u" * 1024, b"p" * 1024), (b"a=b+c", b"==++"), (b"user@example.com", b"s3cr3t-\xf0\x9f\x94\x91"),
          # texts that look like pieces of the mechanisms' own syntax: sent as they are, never interpreted
          (b"user=x", b"Bearer tok"), (b"Bearer ", b"Bearer "), (b"auth=Bearer a", b"auth=Bearer b\x01\x01"), (b"\x01user", b"\x01\x01"), (b"PLAIN", b"LOGIN"), (b"Basic dXNlcg==", b"bearer low"),
-         (b" lead", b" lead"), (b"trail ", b"trail "), (b"dXNlcg==", b"cGFzcw==")]
+         (b" lead", b" lead"), (b"trail ", b"trail "), (b"dXNlcg==", b"cGFzcw=="),
+         # a secret is a string of octets: a line ending at its end belongs to it
+         (b"user", b"pw\n"), (b"user\n", b"pw\r\n"), (b"u", b"\r\n"), (b"\n", b"\n\n")]
 PROMPTS_U = [b"User Name", b"Username:", b"Username", b"User Name\x00"]
 PROMPTS_P = [b"Password", b"Password:", b"Password\x00"]
 
